@@ -16,16 +16,17 @@ M = [
  ("m07-commit-old-term", "leader.go", "	if majorityMatchIndex > l.commitIndex && majorityMatchIndex >= l.startIndex {", "	if majorityMatchIndex > l.commitIndex {", "C02"),
  ("m08-follower-commit-any-term", "rpc.go", "		term == req.term && // don't commit any entry, until leader has committed an entry with his term\n", "", "C02"),
  ("m09-majority-off-by-one", "leader.go", "	quorum := i/2 + 1\n	return matched[quorum-1]", "	quorum := (i + 1) / 2\n	if quorum < 1 {\n		quorum = 1\n	}\n	return matched[quorum-1]", "C06"),
- ("m10-skip-prev-term-check", "rpc.go", "		if req.prevLogTerm != prevLogTerm {\n			return drain(prevTermMismatch, nil)\n		}", "", "C04"),
+ ("m10-skip-prev-term-check", "rpc.go", "		if req.prevLogTerm != prevLogTerm {", "		if req.prevLogTerm != prevLogTerm && false {", "C04"),
  ("m12-no-flush-before-reply", "rpc.go", "				r.storage.commitLog(r.lastLogIndex)\n				if r.canCommit(req, index, term) {", "				if r.canCommit(req, index, term) {", "C06"),
  ("m13-leader-no-flush-at-commit", "config.go", "	l.storage.commitLog(index)\n	commitReady :=", "	commitReady :=", "C06"),
  ("m14-count-nonvoters", "leader.go", "		if n.Voter {\n			if n.ID == l.nid {\n				matched[i] = l.lastLogIndex", "		if n.Voter || true {\n			if n.ID == l.nid {\n				matched[i] = l.lastLogIndex", "C06"),
  ("m15-apply-nop-as-update", "fsm.go", "		if e.typ == entryUpdate {\n			fsm.Update(e.data)\n		} else if", "		if e.typ == entryUpdate || e.typ == entryNop {\n			fsm.Update(e.data)\n		} else if", "C03"),
  ("m17-reject-but-enqueue", "leader.go", "		if l.transfer.inProgress() {\n			ne.reply(InProgressError(\"transferLeadership\"))\n		} else if", "		if l.transfer.inProgress() && !ne.isLogEntry() {\n			ne.reply(InProgressError(\"transferLeadership\"))\n		} else if", "C16"),
+ ("m18b-read-one-early-c15", "leader.go", "		} else if ne.index == l.commitIndex+1 && !ne.isLogEntry() {", "		} else if ne.index <= l.commitIndex+2 && !ne.isLogEntry() {", "C15"),
  ("m18-read-one-early", "leader.go", "		} else if ne.index == l.commitIndex+1 && !ne.isLogEntry() {", "		} else if ne.index <= l.commitIndex+2 && !ne.isLogEntry() {", "C07"),
- ("m19-no-voting-right-validation", "changeconfig.go", "		if n.Voter != nn.Voter {\n			t.reply(fmt.Errorf(\"raft.changeConfig: node %d voting right changed\", id))\n			return\n		}", "", "C08"),
+ ("m19-no-voting-right-validation", "changeconfig.go", "		if n.Voter != nn.Voter {", "		if n.Voter != nn.Voter && false {", "C08"),
  ("m20-no-iscommitted-check", "changeconfig.go", "	if !l.configs.IsCommitted() {\n		t.reply(InProgressError(\"configChange\"))\n		return\n	}", "", "C08"),
- ("m25-nonvoter-campaigns", "follower.go", "	if !n.Voter {\n		return false, \"not voter\"\n	}", "", "C11"),
+ ("m25-nonvoter-campaigns", "follower.go", "	if !n.Voter {\n		return false, \"not voter\"", "	if !n.Voter && false {\n		return false, \"not voter\"", "C11"),
  ("m26-nonvoter-accepts-timeoutnow", "rpc.go", "	if !r.configs.Latest.isVoter(r.nid) {\n		return nonVoter, nil\n	}", "", "C11"),
  ("m27-promote-without-catchup", "changeconfig.go", "		if !r.finished() && status.matchIndex >= r.LastIndex {", "		if !r.finished() {", "C11"),
  ("m28-label-stale-index", "fsm.go", "	t.reply(fsmSnapResp{\n		index:  fsm.index,", "	t.reply(fsmSnapResp{\n		index:  fsm.index - 1,", "C12"),
@@ -40,7 +41,7 @@ M = [
  ("m40-commit-regress", "rpc.go", "		term == req.term && // don't commit any entry, until leader has committed an entry with his term\n		index > r.commitIndex // haven't we committed yet", "		term == req.term // don't commit any entry, until leader has committed an entry with his term", "C19"),
  ("m41-identity-and", "rpc.go", "		if r.cid != req.cid || r.nid != req.nid {", "		if r.cid != req.cid && r.nid != req.nid {", "C20"),
  ("m42-dialer-ignores-result", "conn.go", "	if err != nil || resp.result != success {", "	if err != nil {", "C20"),
- ("m43-removegte-wrong-index", "rpc.go", "			r.storage.removeGTE(ne.index, prevTerm)\n			if ne.index <= r.configs.Latest.Index {", "			r.storage.removeGTE(ne.index+1, me.term)\n			if ne.index <= r.configs.Latest.Index {", "C04"),
+ ("m43-removegte-wrong-index", "rpc.go", "			r.storage.removeGTE(ne.index, prevTerm)\n			if ne.index <= r.configs.Latest.Index {", "			_ = prevTerm\n			r.storage.removeGTE(ne.index+1, me.term)\n			if ne.index <= r.configs.Latest.Index {", "C04"),
  ("m44-restore-keeps-index", "fsm.go", "	fsm.index, fsm.term, fsm.config = snap.meta.index, snap.meta.term, snap.meta.config", "	fsm.term, fsm.config = snap.meta.term, snap.meta.config", "C09"),
 ]
 
